@@ -130,7 +130,9 @@ def c07_2(c: Ctx) -> None:
         deep = Rec(event_path=['A'], event_results={}, event_id='E', event_parent_id='P')
         if is_fwd:
             similar = Rec(event_path=['A', 'B2', 'SubB'], event_results={}, event_id='E', event_parent_id=None)
+            only = Rec(event_path=['B'], event_results={}, event_id='E', event_parent_id=None)
             cases = [('target bus already in path', in_path, 5, [True], False), ('target bus not in path', not_in_path, 0, [False], False),
+                     ('target bus is the only entry of the path (a bus that forwards to itself: bus.on(.., bus.dispatch))', only, 0, [True], False),
                      ("target bus not in path, but buses whose names contain its name are ('B2', 'SubB')", similar, 0, [False], False),
                      ('target bus not in path, deep ancestry (forwarding is exempt from the recursion guard)', deep, 5, [False], False)]
         else:
